@@ -50,7 +50,7 @@ fn spec(t: Tier) -> Spec {
     Spec {
         id: "C20",
         level: "exploration",
-        rule: format!("every sequence of <= {l} input lines over {:?} x every list of 1..{a} initial arguments over {:?} x 10 spellings of the replace option (-I R, -IR, -i, -i=R, --replace, --replace=R; R in {{}}, R, %%, aab, {{{{}}}}) is run through the real xargs_main (hook H2 records each invocation): one run per non-empty line, in order, every occurrence of R in every initial argument replaced by the whole line, nothing appended, other arguments unchanged, empty input runs nothing with status 0; plus every ordered subset of {{replace, -n k, -L k}} (k in 1,2): the option given last decides the mode (-I with -n 1 is replace mode); non-trivial = case with at least one non-empty line and a template containing R; binary slice through the xargs binary and a recorder child", LINES, TEMPL),
+        rule: format!("every sequence of <= {l} input lines over {:?} x every list of 1..{a} initial arguments over {:?} x 10 spellings of the replace option (-I R, -IR, -i, -i=R, --replace, --replace=R; R in {{}}, R, %%, aab, {{{{}}}}) is run through the real xargs_main (hook H2 records each invocation): one run per non-empty line, in order, every occurrence of R in every initial argument replaced by the whole line, nothing appended, other arguments unchanged, empty input runs nothing with status 0; plus every ordered subset of {{replace, -n k, -L k}} (k in 1,2): the option given last decides the mode (-I with -n 1 is replace mode); non-trivial = case with at least one non-empty line and a template containing R; lines that are not valid UTF-8 (bytes ff, c3, f0 9f, e9) must be substituted byte for byte; binary slice through the xargs binary and a recorder child", LINES, TEMPL),
         bound: json!({"max_lines": l, "max_template_args": a}),
         assumptions: vec!["lines with quotes, backslashes or leading blanks are excluded by the statement".into()],
         shards: 0,
@@ -251,6 +251,42 @@ fn run(ctx: &mut Ctx) {
                 };
                 if let Some((sig, detail)) = verdict {
                     ctx.rep.violation(&sig, format!("xargs {:?} cmd {:?} < {:?}\n {detail}", opts, tp, String::from_utf8_lossy(&input)), json!({"prop":"C20","opts":opts,"templ":tp,"input":String::from_utf8_lossy(&input),"mode":"precedence"}));
+                }
+            }
+        }
+    }
+    // lines that are not valid UTF-8 must be substituted byte for byte
+    if ctx.shard == 0 {
+        let raw_lines: [&[u8]; 4] = [b"a\xffb", b"\xc3", b"x\xf0\x9f", b"\xe9t\xe9"];
+        for line in raw_lines {
+            for (opts, r) in [(vec!["-I".to_string(), "{}".to_string()], "{}"), (vec!["-i".to_string()], "{}"), (vec!["-I".to_string(), "R".to_string()], "R")] {
+                for tp in [vec!["{}"], vec!["x{}y", "{}{}"], vec!["R", "aRb"]] {
+                    let mut input = line.to_vec();
+                    input.push(b'\n');
+                    let got = exec(&file, &opts, &tp, &input);
+                    let mut want_one = vec![b"cmd".to_vec()];
+                    for t in &tp {
+                        let parts: Vec<&str> = t.split(r).collect();
+                        let mut a = vec![];
+                        for (i, p) in parts.iter().enumerate() {
+                            if i > 0 {
+                                a.extend_from_slice(line);
+                            }
+                            a.extend_from_slice(p.as_bytes());
+                        }
+                        want_one.push(a);
+                    }
+                    let want = vec![want_one];
+                    ctx.rep.evaluations += 1;
+                    ctx.rep.nontrivial += 1;
+                    if got.inv != want || got.code != Ok(0) {
+                        let same_lossy = show(&got.inv) == show(&want);
+                        ctx.rep.violation(
+                            if same_lossy { "C20 a line that is not valid UTF-8 is not substituted byte for byte (lossy conversion)" } else { "C20 replacement text wrong for a line that is not valid UTF-8" },
+                            format!("xargs {:?} cmd {:?} < {:?}\n expected {:?}\n actual   {:?} status {:?}", opts, tp, input, want, got.inv, got.code),
+                            json!({"prop":"C20","mode":"raw","opts":opts,"templ":tp,"line_hex":line.iter().map(|b| format!("{b:02x}")).collect::<String>()}),
+                        );
+                    }
                 }
             }
         }
